@@ -186,10 +186,10 @@ func (p *Parser) Parse() (*SelectStatement, error) {
 	}
 
 	// 解析JOIN子句（流-表 JOIN，v0.5）
+	// A JOIN clause that cannot be parsed is not recoverable: continuing would run the query
+	// without the JOIN (no enrichment, INNER JOIN keeping every row) and report success.
 	if err := p.parseJoin(stmt); err != nil {
-		if !p.errorRecovery.RecoverFromError(ErrorTypeSyntax) {
-			return nil, p.createDetailedError(err)
-		}
+		return nil, p.createDetailedError(err)
 	}
 
 	// 解析 MATCH_RECOGNIZE 子句（CEP，FROM 后、WHERE 前）
